@@ -240,3 +240,86 @@ Proof.
   split; [exact HT|]. split; [exact HN|]. split; [exact HD|]. split; [exact HS|].
   eexists. split; [vm_compute; reflexivity|]. eapply (initialize_no_orphan rx_dec (fun _ => true) rx_dec_canon 100 rx_tree); try eassumption. vm_compute. reflexivity.
 Qed.
+
+(* ---- the premise "the scan ran to its end" follows from the size of the directory ---- *)
+Section NoStop.
+  Variable b64d : bytes -> option bytes.
+  Variable utf8 : bytes -> bool.
+  Notation parse := (try_parse_cache_file b64d).
+
+  Definition files_bytes (fl : list fent) : N := fold_right (fun f a => lenN (f_content f) + a) 0 fl.
+  Definition keys_bytes (kl : list kent) : N := fold_right (fun k a => files_bytes (k_files k) + a) 0 kl.
+  Definition tree_bytes (tree : list pent) : N := fold_right (fun p a => keys_bytes (p_keys p) + a) 0 tree.
+
+  Lemma scan_items_no_stop capacity pp kd k : forall fl items a, a_stop a = false ->
+    (forall f, In f fl -> parse capacity f <> PErr) -> a_b a + files_bytes fl < SCAN_STOP_FACTOR * capacity ->
+    let r := scan_items b64d capacity pp kd k fl items a in a_stop r = false /\ a_b r <= a_b a + files_bytes fl.
+  Proof.
+    induction fl as [|f fr IH]; intros items a Hs He Hb; cbn [scan_items files_bytes fold_right] in *; cbv zeta.
+    - destruct items; cbn [a_stop a_b]; split; try assumption; try reflexivity; lia.
+    - fold (files_bytes fr) in *. destruct (parse capacity f) as [| |it|] eqn:Ep.
+      + destruct (IH items a Hs (fun g Hg => He g (or_intror Hg))) as [A B]; [lia|]. split; [exact A | lia].
+      + destruct (IH items {| a_tr := a_tr a; a_n := a_n a; a_b := a_b a; a_del := a_del a ++ [(pp, kd, f_name f)]; a_stop := false; a_err := false; a_panic := false |} eq_refl (fun g Hg => He g (or_intror Hg))) as [A B]; [cbn [a_b]; lia|].
+        cbn [a_b] in B. split; [exact A | lia].
+      + destruct (parse_file_item b64d capacity f it Ep) as (_ & buf & _ & _ & El).
+        replace (SCAN_STOP_FACTOR * capacity <=? a_b a + i_len it) with false by lia.
+        destruct (IH (items ++ [(it, false)]) {| a_tr := a_tr a; a_n := a_n a + 1; a_b := a_b a + i_len it; a_del := a_del a; a_stop := false; a_err := false; a_panic := false |} eq_refl (fun g Hg => He g (or_intror Hg))) as [A B]; [cbn [a_b]; lia|].
+        cbn [a_b] in B. split; [exact A | lia].
+      + exfalso. exact (He f (or_introl eq_refl) Ep).
+  Qed.
+
+  Lemma scan_keys_no_stop capacity pp : forall kl a, a_stop a = false ->
+    (forall kd, In kd kl -> try_parse_key b64d utf8 (k_name kd) <> None /\ forall f, In f (k_files kd) -> parse capacity f <> PErr) ->
+    a_b a + keys_bytes kl < SCAN_STOP_FACTOR * capacity ->
+    let r := scan_keys b64d utf8 capacity pp kl a in a_stop r = false /\ a_b r <= a_b a + keys_bytes kl.
+  Proof.
+    induction kl as [|kd kr IH]; intros a Hs Hk Hb; cbn [scan_keys keys_bytes fold_right] in *; cbv zeta; [split; [exact Hs | lia]|].
+    fold (keys_bytes kr) in *. rewrite Hs.
+    assert (Hk' : forall x, In x kr -> try_parse_key b64d utf8 (k_name x) <> None /\ forall f, In f (k_files x) -> parse capacity f <> PErr) by (intros x Hx; apply Hk; right; exact Hx).
+    destruct (k_kind kd =? 1); cbn [negb]; [|destruct (IH a Hs Hk') as [A B]; [lia | split; [exact A | lia]]].
+    destruct (prefix_matches pp (k_name kd)); cbn [negb]; [|destruct (IH a Hs Hk') as [A B]; [lia | split; [exact A | lia]]].
+    destruct (Hk kd (or_introl eq_refl)) as [Hp Hf].
+    destruct (try_parse_key b64d utf8 (k_name kd)) as [[ky|]|]; [| destruct (IH a Hs Hk') as [A B]; [lia | split; [exact A | lia]] | congruence].
+    destruct (scan_items_no_stop capacity pp (k_name kd) ky (k_files kd) [] a Hs Hf) as [A1 B1]; [lia|].
+    destruct (IH _ A1 Hk') as [A B]; [lia | split; [exact A | lia]].
+  Qed.
+
+  Lemma scan_prefixes_no_stop capacity : forall pl a, a_stop a = false ->
+    (forall p kd, In p pl -> In kd (p_keys p) -> try_parse_key b64d utf8 (k_name kd) <> None /\ forall f, In f (k_files kd) -> parse capacity f <> PErr) ->
+    a_b a + tree_bytes pl < SCAN_STOP_FACTOR * capacity ->
+    let r := scan_prefixes b64d utf8 capacity pl a in a_stop r = false /\ a_b r <= a_b a + tree_bytes pl.
+  Proof.
+    induction pl as [|p pr IH]; intros a Hs Hk Hb; cbn [scan_prefixes tree_bytes fold_right] in *; cbv zeta; [split; [exact Hs | lia]|].
+    fold (tree_bytes pr) in *. rewrite Hs.
+    assert (Hk' : forall q kd, In q pr -> In kd (p_keys q) -> try_parse_key b64d utf8 (k_name kd) <> None /\ forall f, In f (k_files kd) -> parse capacity f <> PErr) by (intros q kd Hq; apply Hk; right; exact Hq).
+    destruct (p_kind p =? 1); cbn [negb]; [|destruct (IH a Hs Hk') as [A B]; [lia | split; [exact A | lia]]].
+    destruct (Nat.eqb (length (p_name p)) PREFIX_DIR_NAME_LEN); cbn [negb]; [|destruct (IH a Hs Hk') as [A B]; [lia | split; [exact A | lia]]].
+    destruct (scan_keys_no_stop capacity (p_name p) (p_keys p) a Hs (fun kd Hkd => Hk p kd (or_introl eq_refl) Hkd)) as [A1 B1]; [lia|].
+    destruct (IH _ A1 Hk') as [A B]; [lia | split; [exact A | lia]].
+  Qed.
+
+  (* a directory as the cache writes it whose files add up to less than twice the capacity is scanned to its end *)
+  Theorem scan_runs_to_the_end capacity tree : DirAsWritten b64d utf8 capacity tree ->
+    (forall p kd f, In p tree -> In kd (p_keys p) -> In f (k_files kd) -> lenN (f_content f) <= DEFAULT_CHUNK_CACHE_CAPACITY) ->
+    tree_bytes tree < SCAN_STOP_FACTOR * capacity -> a_stop (cscan b64d utf8 capacity tree) = false.
+  Proof.
+    intros HD Hdef Hb. unfold cscan. apply scan_prefixes_no_stop; [reflexivity | | cbn [a_b]; lia].
+    intros p kd Hp Hkd. destruct (HD p Hp) as (_ & _ & HDk). destruct (HDk kd Hkd) as (_ & _ & [ky Hky] & _). split; [congruence|].
+    intros f Hf. unfold try_parse_cache_file. destruct (f_kind f =? 0); cbn [negb]; [|discriminate].
+    specialize (Hdef p kd f Hp Hkd Hf). replace (DEFAULT_CHUNK_CACHE_CAPACITY <? lenN (f_content f)) with false by lia.
+    destruct (capacity <? lenN (f_content f)); [discriminate|]. destruct (b64d (f_name f)) as [buf|]; [|discriminate].
+    destruct (parse_item buf) as [it|]; [|discriminate]. destruct (lenN (f_content f) =? i_len it); discriminate.
+  Qed.
+End NoStop.
+
+(* the whole statement with that premise discharged *)
+Theorem reopen_small_directory_no_orphan (b64d : bytes -> option bytes) (utf8 : bytes -> bool) :
+  (forall n b, b64d n = Some b -> b64pad b = n /\ Forall is_byte b) ->
+  forall capacity tree s n, TreeCanon tree -> NoDup (keys_of_tree b64d utf8 tree) -> DirAsWritten b64d utf8 capacity tree ->
+  (forall p kd f, In p tree -> In kd (p_keys p) -> In f (k_files kd) -> lenN (f_content f) <= DEFAULT_CHUNK_CACHE_CAPACITY) ->
+  tree_bytes tree < SCAN_STOP_FACTOR * capacity ->
+  initialize b64d utf8 capacity tree = Some (inr s) ->
+  forall es c', crun (s, repeat (PDone COk) n) es = Some c' -> NoOrphan c'.
+Proof.
+  intros Hc capacity tree s n HT HN HD Hdef Hb Hi. eapply reopen_then_no_orphan; try eassumption. apply scan_runs_to_the_end; assumption.
+Qed.
